@@ -1179,6 +1179,11 @@ class H2Connection:
         if origin is not None and stream_id is not None:
             raise ValueError("Must not provide both origin and stream_id")
 
+        if self.config.client_side:
+            raise ProtocolError(
+                "Clients cannot advertise alternative services"
+            )
+
         self.state_machine.process_input(
             ConnectionInputs.SEND_ALTERNATIVE_SERVICE
         )
